@@ -441,6 +441,8 @@ struct Stmt {
     /// the import configuration the statement is imported with
     cfg: CfgSpec,
     entries: Vec<EntrySpec>,
+    /// the optional `<Btch>` header of NtryDtls is left out everywhere (camt.053: Btch [0..1]); the details are unchanged
+    no_btch_header: bool,
 }
 
 impl Stmt {
@@ -539,9 +541,11 @@ fn render_entry(out: &mut String, stmt: &Stmt, i: usize) {
     let fam = if e.side == Side::Credit { "RCDT" } else { "ICDT" };
     out.push_str(&format!("        <BkTxCd>\n          <Domn>\n            <Cd>PMNT</Cd>\n            <Fmly>\n              <Cd>{}</Cd>\n              <SubFmlyCd>OTHR</SubFmlyCd>\n            </Fmly>\n          </Domn>\n        </BkTxCd>\n", fam));
     render_charges(out, stmt, "        ", s.entry_chg, ENTRY_CHARGE);
-    if s.btch || s.k > 0 {
+    if (s.btch && !stmt.no_btch_header) || s.k > 0 {
         out.push_str("        <NtryDtls>\n");
+        if !stmt.no_btch_header {
         out.push_str(&format!("          <Btch>\n            <NbOfTxs>{}</NbOfTxs>\n            <TtlAmt Ccy=\"{}\">{}</TtlAmt>\n            <CdtDbtInd>{}</CdtDbtInd>\n          </Btch>\n", s.k.max(1), stmt.ccy(), stmt.m(a), cd));
+        }
         for (j, (da, dside)) in e.details().iter().enumerate() {
             let dcd = if *dside == Side::Credit { "CRDT" } else { "DBIT" };
             out.push_str("          <TxDtls>\n");
@@ -1178,6 +1182,10 @@ fn families(thorough: bool) -> Vec<Family> {
         f.push(fam("F4", 4, true, e3));
     }
     f.push(fam("F2n", 2, false, en));
+    // Fb1 / Fb2: the same statements with the optional <Btch> header of every NtryDtls left out (the details still sum to
+    // the entry): one entry over the whole alphabet, pairs over E2
+    f.push(fam("Fb1", 1, true, alphabet(&both, &all_amts, &all_dates, &all_shapes)));
+    f.push(fam("Fb2", 2, true, alphabet(&both, &all_amts, &[Dates::Same, Dates::BookLater], &idx(&["k0", "k1", "k2", "k1-entry-incl", "k2-det-incl", "k0-entry-incl2", "k2-entry-incl", "k1-det-notincl", "k3-mixed"]))));
     // --- configuration families over Ec: 2 x 3 x 1 x 3 = 18 (one entry)
     let ec = alphabet(&both, &all_amts, &[Dates::Same], &idx(&["k0", "k1-entry-incl", "k2"]));
     // Fw: account name of EVERY display width 34..=48 (the amount column of the printer is 48: account width + number
@@ -1263,7 +1271,7 @@ fn run(ctx: &mut Ctx) {
             let style = fam.styles[(r % nsty) as usize];
             r /= nsty;
             let opening = fam.unit.openings[(r % 3) as usize];
-            let stmt = Stmt { opening, unit: fam.unit, style, cfg, entries };
+            let stmt = Stmt { opening, unit: fam.unit, style, cfg, entries, no_btch_header: fam.name.starts_with("Fb") };
             let xml = render_xml(&stmt);
             let mut compared = 0u64;
             ctx.case(|| format!("{}\n--- config ---\n{}--- statement ({}) ---\n{}", stmt.summary(), stmt.cfg.yaml(), stmt.cfg.source(), xml), || judge(&sc, &stmt, &xml, &mut compared));
@@ -1281,6 +1289,7 @@ fn run(ctx: &mut Ctx) {
             ctx.count("entries_with_several_charge_records_on_one_transaction", stmt.entries.iter().filter(|e| e.shape().records_on_one_txn() >= 2).count() as u64);
             ctx.count("details_with_opposite_indicator", stmt.entries.iter().filter(|e| e.shape().opp.is_some()).count() as u64);
             ctx.count("details", stmt.entries.iter().map(|e| e.shape().k as u64).sum());
+            ctx.count("statements_without_btch_header", stmt.no_btch_header as u64);
         }
     }
     ctx.fact("statements_total", total);
